@@ -35,8 +35,12 @@ def run_property(prop, tier, engine=None, write=True, quiet=False):
             engine = Engine()
         mod.run(engine, R, tier)
         extra = {}
-        if tier == "thorough" and hasattr(mod, "thorough"):
-            extra = mod.thorough(engine, R, seed) or {}
+        if tier == "thorough":
+            # (a) stdlib conformance, (b) self-validation: must-fire mutants and benign variants
+            from .stdlib_facts import check_all
+            from .selfval.runner import thorough as selfval
+            extra.update(check_all(R))
+            extra.update(selfval(prop, R, seed))
     except AnalysisError as e:
         if not quiet:
             print(f"ANALYSIS-ERROR property={prop} {e}")
